@@ -74,6 +74,12 @@ def load_known():
         return json.load(fh)['findings']
 
 
+def new_refutations(ctx):
+    known = [k for k in load_known() if k['property'] == ctx.pid]
+    open_known = {(k['rule'], k['key']) for k in known if k.get('status', 'open') == 'open'}
+    return [o for o in ctx.obs if o.status == 'refuted' and (o.rule, o.key) not in open_known]
+
+
 def finish(ctx, level, explanation, t0, quiet=False, write=True, extra_cov=None):
     """Evaluate floors, match known findings, write evidence, print result.
     Returns exit code."""
@@ -83,15 +89,6 @@ def finish(ctx, level, explanation, t0, quiet=False, write=True, extra_cov=None)
     for o in ctx.obs:
         counts[o.rule] = counts.get(o.rule, 0) + 1
     refuted_rules = {o.rule for o in ctx.obs if o.status == 'refuted'}
-    for rid, floor in ctx.floors.items():
-        # a rule that stopped at a refutation is not vacuous; the floor guards against rules that silently match nothing
-        if counts.get(rid, 0) < floor and rid not in refuted_rules:
-            raise AnalysisError(f'rule {rid} matched {counts.get(rid, 0)} instances, floor is {floor} '
-                                f'(a rule that matches nothing passes vacuously)')
-    und = [o for o in ctx.obs if o.status == 'undetermined']
-    if und:
-        o = und[0]
-        raise AnalysisError(f'{len(und)} obligation(s) undetermined, first: [{o.rule}] {o.loc} {o.text}: {o.detail}')
     known = [k for k in load_known() if k['property'] == ctx.pid]
     open_known = {(k['rule'], k['key']): k for k in known if k.get('status', 'open') == 'open'}
     refuted = [o for o in ctx.obs if o.status == 'refuted']
@@ -106,6 +103,25 @@ def finish(ctx, level, explanation, t0, quiet=False, write=True, extra_cov=None)
             kf.append((o, open_known[k]))
         else:
             new.append(o)
+    # A refutation that is not a listed finding is a verdict in its own right: rules that could not be completed on the same
+    # tree (their anchor changed shape together with the defect) are reported as notes.  Without such a verdict an incomplete
+    # rule is an analysis error -- never a silent pass.
+    incomplete = []
+    for rid, floor in ctx.floors.items():
+        # a rule that stopped at a refutation is not vacuous; the floor guards against rules that silently match nothing
+        if counts.get(rid, 0) < floor and rid not in refuted_rules:
+            incomplete.append(f'rule {rid} matched {counts.get(rid, 0)} instances, floor is {floor} '
+                              f'(a rule that matches nothing passes vacuously)')
+    und = [o for o in ctx.obs if o.status == 'undetermined']
+    if und:
+        o = und[0]
+        incomplete.append(f'{len(und)} obligation(s) undetermined, first: [{o.rule}] {o.loc} {o.text}: {o.detail}')
+    if getattr(ctx, 'stopped_early', None):
+        incomplete.insert(0, f'analysis stopped early: {ctx.stopped_early}')
+    if incomplete and not new:
+        raise AnalysisError(incomplete[0])
+    for msg in incomplete:
+        out.append(f'NOTE: not all rules could be completed on this tree: {msg}')
     os.makedirs(os.path.join(EVID, 'replay'), exist_ok=True)
     for o, k in kf:
         out.append(f'KNOWN-FINDING: property={ctx.pid} [{o.rule}] {k["what_fails"]} ({o.loc})')
